@@ -887,6 +887,13 @@ func (db *DB) Close(ctx context.Context) (err error) {
 		db.Replica.Stop(true)
 	}
 
+	// Wait for in-flight snapshot readers before giving up the read lock. They
+	// encode from the database file and from WAL offsets captured earlier and
+	// rely on the read lock to keep the WAL from being restarted under them;
+	// releasing it early lets a snapshot mix page versions of different commits.
+	db.chkMu.Lock()
+	defer db.chkMu.Unlock()
+
 	// Release the read lock to allow other applications to handle checkpointing.
 	if db.rtx != nil {
 		if e := db.releaseReadLock(); e != nil && err == nil {
